@@ -156,3 +156,24 @@ pub fn variant_name<T: std::fmt::Debug>(v: &T) -> String {
     let s = format!("{:?}", v);
     s.split(|c: char| c == '(' || c == ' ' || c == '{').next().unwrap_or("").to_string()
 }
+
+/// Out-of-range positions that come back into range when an implementation multiplies them by
+/// 2, 4, 8, 64 or 512 (or shifts them left) before comparing with the length: 2^(64-s) + k for
+/// k in {0, n/2, n-1}, and the positions just below usize::MAX whose +1 / +n wraps to a small
+/// number.
+pub fn wrap_positions(n: usize) -> Vec<usize> {
+    let mut v = Vec::new();
+    for s in [1u32, 2, 3, 6, 9] {
+        let base = 1usize << (64 - s);
+        for k in [0usize, n / 2, n.saturating_sub(1)] {
+            v.push(base + k);
+            v.push(base.wrapping_mul(3).wrapping_add(k) | base); // other high bits set as well
+        }
+    }
+    v.push(usize::MAX - n);
+    v.push((usize::MAX - n).wrapping_add(1));
+    v.push(usize::MAX / 2);
+    v.push(usize::MAX / 2 + 1);
+    v.retain(|&x| x > n + 1);
+    v
+}
